@@ -1,25 +1,64 @@
 import MySensors.Driver.Wire
+import MySensors.Driver.GwCmd
 
 namespace MySensors.Driver
+open MySensors
 
-/-- one protocol line → one output line; state-free commands only for now -/
-def stepLine (line : String) : String :=
+structure DState where
+  gw : GW := { const := .v14 }
+
+def valCmd (cmd : String) (args : List String) : Option String :=
+  match cmd, args with
+  | "VAL", v :: ws => do
+    let c ← parseConst v
+    let m ← parseMsg ws
+    some (if validate c m then "ok" else "invalid")
+  | "FLOAT", [d] => do
+    let s ← decStr d
+    some (match pyFloat s with
+      | none => "err"
+      | some .nan => "nan"
+      | some (.inf n) => if n then "-inf" else "inf"
+      | some (.fin q) => s!"fin {q.num}/{q.den}")
+  | "VER", [d] => do
+    let s ← decStr d
+    some (match isVersion s, selectConst s with
+      | some ok, some c => s!"{ok} {repr c}"
+      | _, _ => "unknown")
+  | _, _ => none
+
+/-- one protocol line → new driver state and one output line -/
+def stepLine (st : DState) (line : String) : DState × String :=
   match (line.trimAscii.toString.splitOn " ").filter (· ≠ "") with
-  | [] => "bad-op"
+  | [] => (st, "bad-op")
   | cmd :: args =>
-    match codecCmd cmd args with
-    | some out => out
-    | none => "bad-op"
+    if cmd == "G" then
+      match parseGw args with
+      | some g => ({ st with gw := g }, "ok")
+      | none => (st, "bad-op")
+    else
+      match parseOp cmd args with
+      | some op =>
+        let (g', o) := step st.gw op
+        ({ st with gw := g' }, showObs g' o)
+      | none =>
+        match codecCmd cmd args with
+        | some out => (st, out)
+        | none =>
+          match valCmd cmd args with
+          | some out => (st, out)
+          | none => (st, "bad-op")
 
-partial def loop (h : IO.FS.Stream) (out : IO.FS.Stream) : IO Unit := do
+partial def loop (h : IO.FS.Stream) (out : IO.FS.Stream) (st : DState) : IO Unit := do
   let line ← h.getLine
   if line.isEmpty then return ()
-  out.putStrLn (stepLine line)
-  loop h out
+  let (st', o) := stepLine st line
+  out.putStrLn o
+  loop h out st'
 
 def driverMain : IO Unit := do
   let out ← IO.getStdout
-  loop (← IO.getStdin) out
+  loop (← IO.getStdin) out {}
   out.flush
 
 end MySensors.Driver
